@@ -52,7 +52,8 @@ def config(draw, reuse=None):
     order = draw(st.permutations(list(range(sum(len(g['labels']) for g in groups)))))
     return dict(groups=groups, aliases=aliases, order=list(order), crlf=draw(st.booleans()),
                 alias_typedef=bool(aliases) or draw(st.booleans()), masktype_rows=draw(st.booleans()),
-                cols=draw(st.sampled_from(['standard', 'standard', 'alias-swapped', 'bits-swapped', 'both-swapped'])))
+                cols=draw(st.sampled_from(['standard', 'standard', 'alias-swapped', 'bits-swapped', 'both-swapped'])),
+                final_newline=draw(st.sampled_from([True, True, False])))
 
 
 def mixcase(draw, s):
@@ -124,7 +125,7 @@ def render(cfg):
         rows.insert(min(3 * j + 1, len(rows)), 'maskalias %s %s "%s is a synonym for %s."' % ((a, t, a, t) if swap_alias else (t, a, a, t)))      # ascending positions: declaration order kept
     rows.insert(len(rows) // 2, '#------------------------------------------------------------------------------')
     nl = '\r\n' if cfg['crlf'] else '\n'
-    return nl.join(lines + rows) + nl
+    return nl.join(lines + rows) + (nl if cfg.get('final_newline', True) else '')
 
 
 def body(case):
@@ -250,7 +251,50 @@ def nontrivial(case, labels):
     return 'bit>=32' in labels and ('multi-label' in labels or 'value:mixed' in labels or 'value:undefined' in labels or 'value:all' in labels)
 
 
+# ------------------------------------------------------------------ a definition file without any flag group
+def empty_cases(tier):
+    for crlf in (False, True):
+        for rows in ('none', 'commented-out'):
+            yield dict(crlf=crlf, rows=rows)
+
+
+def empty_body(case):
+    """A maskbits file that declares the tables but defines no group (every row removed or commented out) is a configuration too:
+    every group is unknown in it - the existence query says so without raising, conversions raise KeyError, nothing else happens
+    (in particular nothing is fetched from anywhere)."""
+    import pydl.pydlutils.sdss as S
+    from pydl.pydlutils.sdss import set_maskbits, sdss_flagval, sdss_flagname, sdss_flagexist
+    text = render(dict(groups=[], aliases=[], order=[], crlf=case['crlf'], alias_typedef=True, masktype_rows=False))
+    if case['rows'] == 'commented-out':
+        text += '# maskbits TARGET 0 QSO_HIZ "commented out"' + ('\r\n' if case['crlf'] else '\n')
+    with tmpdir() as d:
+        fn = os.path.join(d, 'empty.par')
+        with open(fn, 'w', newline='') as f:
+            f.write(text)
+        S.maskbits = call(set_maskbits, maskbits_file=fn)
+        with judge('empty-config'):
+            check(dict(S.maskbits) == {}, 'empty:cache-not-empty', lambda: repr(S.maskbits))
+        r = call(sdss_flagexist, 'TARGET', 'QSO_HIZ')
+        r2 = call(sdss_flagexist, 'TARGET', ['QSO_HIZ', 'X'], flagexist=True, whichexist=True)
+        with judge('empty-config'):
+            check(r is False or (isinstance(r, (bool, np.bool_)) and not r), 'empty:flagexist-not-false', lambda: repr(r))
+            check(bool(r2[0]) is False and bool(r2[1]) is False and [bool(x) for x in r2[2]] == [False, False], 'empty:flagexist-detail', lambda: repr(r2))
+        for fn_, args in ((sdss_flagval, ('TARGET', 'QSO_HIZ')), (sdss_flagname, ('TARGET', 5))):
+            try:
+                call(fn_, *args, allowed=(KeyError,))
+            except KeyError:
+                pass
+            else:
+                raise Violation('empty:conversion-did-not-raise-KeyError', fn_.__name__)
+        z = call(sdss_flagname, 'TARGET', 0)
+        with judge('empty-config'):
+            check(list(z) == [] or z == '', 'empty:zero-value-names-bits', lambda: repr(z))
+            check(dict(S.maskbits) == {}, 'empty:cache-replaced', lambda: sorted(S.maskbits)[:5])
+
+
 SUBCHECKS = [
+    SubCheck('empty_config', empty_body, kind='exhaustive', cases=empty_cases, classify=lambda c: ['crlf' if c['crlf'] else 'lf', 'rows:' + c['rows']], nontrivial=lambda c, l: True,
+             shards=(1, 1), floor=0.0, doc='a definition file without any group: everything unknown, nothing raised by the existence query, nothing fetched'),
     SubCheck('maskbits_config', body, strategy=case_strategy, classify=classify, nontrivial=nontrivial,
              quick=2400, thorough=120000, shards=(8, 16),
              doc='generated maskbits files (incl. reconfiguration with re-used group names) x generated name/value queries'),
